@@ -291,6 +291,12 @@ def replay(ctx, inp):
         want = f"{BC_CLASSES.get(cls, 0)}"
         bad = [c for c in can if not c.startswith("ok ") or c.split(" ")[2] != want]
         return {"fails": bool(bad), "observed": can}
+    if op == "bcrypt-builtin-works":
+        res = worker([["set", "bcrypt", "builtin", 0], ["calc", "bcrypt", b"pw".hex()]], True)
+        return {"fails": not (res[0] == "ok builtin" and res[1].startswith("ok builtin ")), "observed": res}
+    if op == "bcrypt-pkg-long-secret":
+        res = worker([["set", "bcrypt", "bcrypt", 0], ["calc", "bcrypt", (b"x" * 80).hex()]], False)
+        return {"fails": not (res[0] == "ok bcrypt" and res[1].startswith("ok bcrypt ")), "observed": res}
     if op == "bcrypt-os-crypt-non-utf8":
         res = worker([["set", "bcrypt", "os_crypt", 0], ["calc", "bcrypt", "fffe80"]], False)
         return {"fails": res[0] == "ok os_crypt" and res[1].startswith("err "), "observed": res}
